@@ -30,7 +30,7 @@ desc_modeled!(u8, u32, u64, bool, (), Compact<u32>, Option<u32>, Result<u32, u8>
 	VecDeque<u32>, LinkedList<u32>, BinaryHeap<u32>, BTreeSet<u32>, BTreeMap<u32, u8>, Vec<(u32, u8)>, Vec<(u32,)>, String,
 	Duration, TwinU32, Box<u32>, Rc<u32>, Arc<u32>, Vec<Box<u32>>, VecDeque<Arc<u32>>, Option<Box<u32>>, [Box<u32>; 2],
 	Box<TwinU32>, Cow<'static, u32>, Vec<u64>, Option<u64>);
-#[cfg(feature = "full")]
+#[cfg(feature = "bytes-f")]
 desc_modeled!(bytes::Bytes);
 impl<T: Desc> Desc for &T {
 	fn desc() -> String {
@@ -165,7 +165,7 @@ pub fn like_stream(ctx: &mut Ctx) {
 		String, &'static str, Vec<u8>, &'static [u8], Duration, TwinU32, &'static TwinU32, Box<TwinU32>,
 		parity_scale_codec::Ref<'static, u32, u32>, parity_scale_codec::Ref<'static, Box<u32>, u32>,
 	);
-	#[cfg(feature = "full")]
+	#[cfg(feature = "bytes-f")]
 	{
 		like_matrix!(ctx; bytes::Bytes, Vec<u8>, &'static [u8], String, &'static str, Vec<u32>);
 	}
@@ -196,7 +196,7 @@ pub fn like_stream(ctx: &mut Ctx) {
 	like_case!(ctx; Vec<(u32,)>, &'static [(u32,)] => BinaryHeap<u32>, true, |o| &o[..]);
 	like_case!(ctx; TwinU32, &'static TwinU32 => TwinU32, false, |o| o);
 	like_case!(ctx; u32, parity_scale_codec::Ref<'static, u32, u32> => u32, false, |o| parity_scale_codec::Ref::from(o));
-	#[cfg(feature = "full")]
+	#[cfg(feature = "bytes-f")]
 	{
 		like_case!(ctx; Vec<u8>, bytes::Bytes => Vec<u8>, false, |o| bytes::Bytes::from(o.clone()));
 		like_case!(ctx; Vec<u8>, &'static [u8] => bytes::Bytes, false, |o| &o[..]);
